@@ -95,7 +95,10 @@ func (e *Engine) VerifyFunc(key string) {
 				e.Obls = e.Obls[:startObl]
 				return
 			}
-			panic(r)
+			// an engine limitation surfaced as a Go panic: the function is outside reach, never "proved"
+			e.Unsupported[key] = append(e.Unsupported[key], fmt.Sprintf("engine limitation: %v", r))
+			e.Obls = e.Obls[:startObl]
+			return
 		}
 	}()
 	fx := e.newFctx(fi)
@@ -232,7 +235,30 @@ func (e *Engine) VerifyFunc(key string) {
 			c.Canary = true
 		}
 		// escaping values and objects written must satisfy their invariants
-		fx.boundaryCheck(r.st, fi.Decl, "exit/"+retTag)
+		fx.exitExempt = nil
+		if fx.con != nil {
+			for _, ex := range fx.con.Exempts {
+				pv := bind[ex.Param]
+				if pv == nil {
+					pv = b[ex.Param] // a result name
+				}
+				if pv != nil && pv.Tm != nil {
+					c := fx.evalClause(r.st, fx.entry, ex.Clause, b)
+					if fx.exitExempt == nil {
+						fx.exitExempt = map[int]*Term{}
+					}
+					fx.exitExempt[pv.Tm.id] = c
+				}
+			}
+		}
+		var returned []*Term
+		for _, v := range r.vals {
+			if v != nil && v.Tm != nil && v.Tm.Sort == SInt {
+				returned = append(returned, v.Tm)
+			}
+		}
+		fx.boundaryCheckArgs(r.st, fi.Decl, "exit/"+retTag, returned, false)
+		fx.exitExempt = nil
 		for _, v := range r.vals {
 			fx.onEscape(r.st, v, fi.Decl, "exit/"+retTag)
 		}
